@@ -467,6 +467,56 @@ fn rendezvous_drops(rep: &mut Report, pairs: usize, rounds: usize, seed: u64) {
             bad.lock().unwrap().push("panic: a rendezvous thread panicked".into());
         }
     }
+    // swell: one thread repeatedly holds a few thousand distinct strings alive at once and drops them all (so the table
+    // grows past several capacity steps and becomes sparse again), while the other threads keep asking for a content that
+    // a keeper handle holds alive the whole time: every one of those handles must sit on the keeper's buffer
+    {
+        let keeper_bytes = {
+            let mut b = content_bytes(tag, 251);
+            b.extend_from_slice(&seed.to_le_bytes());
+            b
+        };
+        let keeper = SharedString::new(keeper_bytes.clone());
+        let kp = keeper.data().as_ptr() as usize;
+        let stop = Arc::new(std::sync::atomic::AtomicBool::new(false));
+        let mut probes = vec![];
+        for _ in 0..pairs.max(2) {
+            let (stop, bad, kb) = (stop.clone(), bad.clone(), keeper_bytes.clone());
+            probes.push(std::thread::spawn(move || {
+                let mut n = 0u64;
+                while !stop.load(Ordering::Relaxed) {
+                    let h = SharedString::new(kb.clone());
+                    if h.data().as_ptr() as usize != kp {
+                        bad.lock().unwrap().push("dedup: a handle of the keeper's content sits on another buffer while the table is being grown and emptied".into());
+                        break;
+                    }
+                    n += 1;
+                }
+                n
+            }));
+        }
+        let cycles = 6 + (rounds / 40_000).min(20);
+        for c in 0..cycles {
+            let held: Vec<SharedString> = (0..[700usize, 1500, 4000][c % 3])
+                .map(|i| {
+                    let mut b = content_bytes(tag, 250);
+                    b.extend_from_slice(&(c as u32).to_le_bytes());
+                    b.extend_from_slice(&(i as u32).to_le_bytes());
+                    b.extend_from_slice(&seed.to_le_bytes());
+                    SharedString::new(b)
+                })
+                .collect();
+            drop(held);
+        }
+        stop.store(true, Ordering::Relaxed);
+        let mut asked = 0u64;
+        for p in probes {
+            asked += p.join().unwrap_or(0);
+        }
+        rep.add("stress.swell_cycles", cycles as u64);
+        rep.add("stress.swell_keeper_lookups", asked);
+        drop(keeper);
+    }
     // ping-pong: both threads of a pair run new()+drop of the SAME content a few times, in step, then move on to a
     // content that never comes back. One thread's table clean-up keeps meeting the other's new() and drop of that
     // content (slot dead / re-populated / released again), and whatever is left behind when the pair moves on stays.
